@@ -22,6 +22,8 @@ ALLOWED = {
 for _f in ["extension", "filename", "has_extension", "has_filename", "has_parent_path", "has_relative_path", "has_root_directory", "has_root_name", "has_root_path",
            "has_stem", "is_absolute", "is_relative", "parent_path", "relative_path", "root_directory", "root_name", "root_path", "stem"]:
     ALLOWED["zix_path_" + _f] = "pure"
+# on POSIX the root name is always empty and is computed without reading the string
+ALLOWED["zix_path_root_name"] = "const"; ALLOWED["zix_path_has_root_name"] = "const"
 
 RANK = {"": 0, "pure": 1, "const": 2}
 
@@ -34,13 +36,32 @@ HEADERS = {
 }
 
 def declared(repo, header):
-    """{function: 'pure' | 'const' | ''} for every ZIX_*API / ZIX_*FUNC declaration in include/zix/<header>."""
-    txt = open(os.path.join(repo, "include/zix", header)).read()
-    txt = re.sub(r"/\*.*?\*/", "", txt, flags=re.S); txt = re.sub(r"//[^\n]*", "", txt)
+    """{function: 'pure' | 'const' | ''} for every function declared in include/zix/<header>, read from the PREPROCESSED
+    header (so that whatever macro spells the attribute on this platform is resolved)."""
+    import subprocess
+    tu = "#include <zix/%s>\n" % header
+    r = subprocess.run(["gcc", "-std=gnu11", "-E", "-P", "-I", os.path.join(repo, "include"), "-x", "c", "-"], input=tu, capture_output=True, text=True)
+    if r.returncode: raise RuntimeError(r.stderr[-500:])
+    # keep only what comes from the zix headers: everything after the first zix declaration is enough for our purpose
+    txt = r.stdout
     out = {}
-    for m in re.finditer(r"((?:\bZIX_[A-Z_]+\b\s*)+)[^;{}()]*?\b(zix_\w+)\s*\(", txt):
-        macros = m.group(1)
-        out[m.group(2)] = "const" if "CONST" in macros else ("pure" if "PURE" in macros else "")
+    # split into top-level declarations / definitions
+    depth = 0; cur = []; chunks = []
+    for ch in txt:
+        if ch == "{": depth += 1
+        if depth == 0: cur.append(ch)
+        if ch == "}":
+            depth -= 1
+            if depth == 0: chunks.append("".join(cur)); cur = []
+            continue
+        if ch == ";" and depth == 0: chunks.append("".join(cur)); cur = []
+    for c in chunks:
+        m = re.search(r"\b(zix_\w+)\s*\(", c)
+        if not m or "typedef" in c.split(m.group(1))[0]: continue
+        head = c[:m.start()] + c[m.end():]
+        attrs = re.findall(r"__attribute__\s*\(\(\s*_*(\w+?)_*\s*[,)(]", c)
+        a = "const" if "const" in attrs else ("pure" if "pure" in attrs else "")
+        out[m.group(1)] = a
     return out
 
 def audit(ck, headers):
